@@ -117,6 +117,15 @@ def real_step(cur, op):
             return None, cur.clone()
         if o == "eq":
             return (cur == dec(op["v"])), cur
+        if o == "poke_lists":  # assign inside every namespace held in a list value (reachable only by identity)
+            n = 0
+            for _, v in list(cur.items()):
+                if isinstance(v, list):
+                    for x in v:
+                        if isinstance(x, Namespace):
+                            x["zz_poke"] = 1
+                            n += 1
+            return n, cur
         if o == "from_dict":
             return None, Namespace(dec(op["v"]))
         if o == "dict_to_namespace":
@@ -331,6 +340,16 @@ def ref_step(root, op):
             return True, root, False
         if o == "clone_swap":
             return None, root, False
+        if o == "poke_lists":
+            n = 0
+            for _, v in ref_leaves(root):
+                if isinstance(v, list):
+                    for x in v:
+                        from jsonargparse import Namespace as _NS
+                        if isinstance(x, _NS):
+                            x["zz_poke"] = 1   # the reference holds its own copies of such namespaces
+                            n += 1
+            return ("poke", n), root, False
         if o == "eq":
             return (node_to_ns(root) == dec(op["v"])), root, False
         if o == "from_dict":
@@ -388,7 +407,32 @@ def oracle_run(ops):
     for i, op in enumerate(ops):
         if op["op"] == "clone_swap":
             originals.append((cur, json.dumps(enc(cur), sort_keys=True)))
-        r_real, cur = real_step(cur, op)
+        if op["op"] in ("from_dict", "dict_to_namespace"):
+            # conversion from a dictionary must neither rewrite the caller's dictionary nor alias its containers
+            from jsonargparse import Namespace, dict_to_namespace
+
+            src = dec(op["v"])
+            snap = json.dumps(enc(src), sort_keys=True)
+            try:
+                cur2 = Namespace(src) if op["op"] == "from_dict" else dict_to_namespace(src)
+                r_real = None
+            except Exception as ex:  # noqa: BLE001
+                cur2, r_real = cur, {"err": err_name(ex)}
+            # Namespace(dict) assigns key by key: a dotted key may legitimately write into a Namespace VALUE of the
+            # same dictionary (shallow conversion) or, through a dict value, hit the known through-dict class
+            undotted = all("." not in k for k in src) if isinstance(src, dict) else True
+            if (op["op"] == "dict_to_namespace" or undotted) and json.dumps(enc(src), sort_keys=True) != snap:
+                devs.append((i, False, "%s rewrote the dictionary it was given" % op["op"]))
+                return devs
+            if op["op"] == "dict_to_namespace" and r_real is None:
+                # dict_to_namespace copies the branches: neither the source nor a second conversion may be
+                # reachable from the result (Namespace(dict) is a shallow conversion and shares values by design)
+                again = dict_to_namespace(src)
+                originals.append((again, json.dumps(enc(again), sort_keys=True)))
+                originals.append((src, snap))
+            cur = cur2
+        else:
+            r_real, cur = real_step(cur, op)
         for obj, snap in originals:
             if json.dumps(enc(obj), sort_keys=True) != snap:
                 devs.append((i, False, "a write to the clone changed the namespace it was cloned from"))
@@ -414,6 +458,9 @@ def oracle_run(ops):
         elif isinstance(obs, tuple) and obs[0] == "as_dict":
             if canon_obs(dec(r_real)) != canon_obs(obs[1]):
                 desc = "as_dict() differs"
+        elif isinstance(obs, tuple) and obs[0] == "poke":
+            if r_real != obs[1]:
+                desc = "number of namespaces held in list leaves differs"
         elif isinstance(obs, bool):
             if r_real is not obs:
                 desc = "boolean observation differs (%s)" % op["op"]
@@ -425,7 +472,9 @@ def oracle_run(ops):
             if through:
                 tainted = True
                 # resynchronise the reference with the real state so that later, unrelated steps are still judged
-                root = ref_of_value(cur)
+                import copy
+
+                root = ref_of_value(copy.deepcopy(cur))  # never share containers with the real namespace
                 tainted = False
             else:
                 return devs
@@ -517,7 +566,9 @@ def gen_op(rng):
         return {"op": "eq", "v": {"n": gen_value_ns(rng)}}
     if r < 0.97:
         return {"op": "from_dict", "v": gen_dict_value(rng)}
-    return {"op": "dict_to_namespace", "v": plain_dict(rng)}
+    if r < 0.985:
+        return {"op": "dict_to_namespace", "v": plain_dict(rng)}
+    return {"op": "poke_lists"}
 
 
 def gen_value_ns(rng):
@@ -526,7 +577,7 @@ def gen_value_ns(rng):
 
 
 def observe_tail():
-    return [{"op": "items", "branches": True}, {"op": "as_dict"}, {"op": "clone_eq"}]
+    return [{"op": "poke_lists"}, {"op": "items", "branches": True}, {"op": "as_dict"}, {"op": "clone_eq"}]
 
 
 def exhaustive_sequences(max_len):
